@@ -53,7 +53,7 @@ ASSUMPTIONS = [
 ]
 TECHNIQUE = 'grammar-based generation + differential evaluation against CPython eval'
 BUDGET = {'quick': dict(examples=12000, shards=8, max_seconds=60),
-          'thorough': dict(examples=200000, shards=16, max_seconds=600)}
+          'thorough': dict(examples=200000, shards=16, max_seconds=1800)}
 
 parse = predicate_formula.parse_predicate_formula
 
